@@ -345,7 +345,13 @@ func (vc *FuncVC) storeAt(st *State, p PtrVal, v Value) {
 // closureRef turns a function value into an opaque reference (its identity only).
 func (vc *FuncVC) closureRef(st *State, c *ClosureVal) Term {
 	if len(c.Bind) == 0 {
-		return vc.sc.Const("fn."+c.Fn.String(), SRef)
+		t := vc.sc.Const("fn."+c.Fn.String(), SRef)
+		key := "fnnonnil:" + t.S
+		if !vc.namedOnce[key] {
+			vc.namedOnce[key] = true
+			vc.implFacts = append(vc.implFacts, Not(Eq(t, tNull)))
+		}
+		return t
 	}
 	r := vc.fresh(st, "closure."+c.Fn.Name(), SRef)
 	st.assume(Not(Eq(r, tNull)))
